@@ -493,6 +493,60 @@ fn depth_worker(a: &Args) -> i32 {
     if violations.is_empty() { 0 } else { 1 }
 }
 
+/// Fingerprints of a few BIG inputs (above the sizes at which a library would start helper threads,
+/// switch algorithms or buffers), printed one per line. check.py runs this in processes that are
+/// allowed on 1 CPU, on 2 CPUs and on all of them, and compares the lines: how many CPUs the
+/// machine or the calling thread has is not an input of a parse.
+fn bigfp(a: &Args) -> i32 {
+    let seed = a.u64("seed", 1);
+    let n = a.u64("n", 6);
+    let only = a.kv.get("only").and_then(|s| s.parse::<u64>().ok());
+    let d = dict::get();
+    for i in 0..n {
+        if only.is_some() && only != Some(i) {
+            continue;
+        }
+        let mut r = rng::Rng::new(mix3(seed, 0xB16F, i));
+        let target = [140_000usize, 200_000, 300_000, 520_000, 1_100_000][(i % 5) as usize];
+        let mut text = String::new();
+        while text.len() < target {
+            text.push_str(&gen::recipe_large(&mut r));
+            // now and then a line made of tokens from the library's own source and of the
+            // degenerate comment forms (whatever a chunked or parallel scanner cuts wrongly)
+            if r.chance(1, 2) {
+                for _ in 0..r.range(1, 4) {
+                    if !d.recipe.is_empty() && r.chance(1, 2) {
+                        text.push_str(&d.recipe[r.below(d.recipe.len())]);
+                    } else {
+                        // (forms that open a comment for good only in every other input, and late)
+                        let open_ok = i % 2 == 1 && text.len() > target / 2;
+                        text.push_str(if open_ok { r.pick_str(&["[-]", "[-", "[-]-]"]) } else { r.pick_str(&["[- x -]", "-]", "[--]", "-- c", "[-] y -]", "@a{1%g}", "~{5%min}"]) });
+                    }
+                    text.push(' ');
+                }
+                text.push_str("\n\n");
+            }
+        }
+        for cfg in [scenario::ParserCfg { ext_bits: scenario::EXT_ALL, converter: "bundled".into() }, scenario::ParserCfg { ext_bits: 0, converter: "empty".into() }] {
+            let p = c18::build_parser(&cfg);
+            let fp = |f: &dyn Fn() -> String| match std::panic::catch_unwind(std::panic::AssertUnwindSafe(f)) {
+                Ok(s) => rng::fnv(s.as_bytes()),
+                Err(_) => {
+                    let _ = sim::take_last_panic();
+                    0xDEAD
+                }
+            };
+            let h1 = fp(&|| format!("{:?}", p.parse(&text)));
+            let h2 = fp(&|| format!("{:?}", p.parse_metadata(&text)));
+            let h3 = fp(&|| cooklang::parser::PullParser::new(&text, p.extensions()).map(|e| format!("{e:?}")).collect::<Vec<_>>().join("\n"));
+            println!("{i}\t{}\t{}\tparse\t{h1:016x}", text.len(), cfg.key());
+            println!("{i}\t{}\t{}\tmetadata\t{h2:016x}", text.len(), cfg.key());
+            println!("{i}\t{}\t{}\tevents\t{h3:016x}", text.len(), cfg.key());
+        }
+    }
+    0
+}
+
 fn replay(a: &Args) -> i32 {
     let path = a.pos.get(1).cloned().unwrap_or_else(|| die("replay needs a file"));
     let text = std::fs::read_to_string(&path).unwrap_or_else(|e| die(&format!("{path}: {e}")));
@@ -614,6 +668,7 @@ fn dispatch(cmd: &str, a: &Args) -> i32 {
     match cmd {
         "c18" => c18_worker(a),
         "depth" => depth_worker(a),
+        "bigfp" => bigfp(a),
         "c11" => c11::worker(a),
         "replay" => replay(a),
         "minimise" => minimise::run(a),
@@ -623,6 +678,20 @@ fn dispatch(cmd: &str, a: &Args) -> i32 {
             let b = c18::build_parser(&scenario::ParserCfg { ext_bits: scenario::EXT_ALL, converter: "bundled".into() });
             let si = c18::build_parser(&scenario::ParserCfg { ext_bits: scenario::EXT_ALL, converter: "custom-si".into() });
             println!("custom units={} EL={:?} | bundled units={} EL={:?} | si Kg={:?} dekagram={:?} bundled Kg={:?}", p.converter().unit_count(), p.converter().find_unit("EL").map(|u| u.symbol().to_string()), b.converter().unit_count(), b.converter().find_unit("EL").is_some(), si.converter().find_unit("Kg").map(|u| u.symbol().to_string()), si.converter().find_unit("dekagram").is_some(), b.converter().find_unit("Kg").is_some());
+            0
+        }
+        // diagnostic: does the very long input of the pool produce an output at all?
+        "probe-xl" => {
+            let pool = Pool::load(&a.str("repo", "/repo"));
+            let p = c18::build_parser(&scenario::ParserCfg { ext_bits: scenario::EXT_ALL, converter: "bundled".into() });
+            let r = p.parse(&pool.xl);
+            println!("xl bytes={} has_output={} errors={} warnings={}", pool.xl.len(), r.has_output(), r.report().errors().count(), r.report().warnings().count());
+            for e in r.report().errors().take(5) {
+                println!("ERR {}", e.message);
+            }
+            if let Some(o) = r.output() {
+                println!("ingredients={} inline_quantities={} sections={}", o.ingredients.len(), o.inline_quantities.len(), o.sections.len());
+            }
             0
         }
         "dict" => {
